@@ -77,8 +77,6 @@ def main(argv):
             want = ast.parse(raw)
         except (SyntaxError, ValueError):
             continue
-        if tag is None and sb is not None and bom:
-            tag = 'bom-before-shebang'
         if tag is None and sb is not None and enc != 'utf-8' and any(ord(ch) > 127 for ch in sb):
             tag = 'non-utf8-bytes-in-shebang'
         label = {'encoding': enc, 'cookie': cookie, 'bom': bom, 'newline': repr(nl), 'shebang': sb, 'mechanism': tag}
